@@ -276,8 +276,14 @@ func (p *CallPool) Open() error {
 		p.shared = append(p.shared, lo)
 		p.sharedS = append(p.sharedS, *lo)
 	}
-	for _, t := range p.Inputs {
-		g, err := mon.NewGuarded([]byte(t))
+	for i, t := range p.Inputs {
+		// every third buffer is a record cut out of a larger one: it has spare capacity, holding the next
+		// record, inside the protected pages - an append to the argument faults like any other write
+		var slack []byte
+		if i%3 == 1 {
+			slack = []byte("\n{\"next\":[1,2]}\n")[:1+i%14]
+		}
+		g, err := mon.NewGuardedSlack([]byte(t), slack)
 		if err != nil {
 			return err
 		}
@@ -396,6 +402,9 @@ func (p *CallPool) CheckInputs() string {
 	for i, g := range p.bufs {
 		if string(g.B) != p.Inputs[i] {
 			return fmt.Sprintf("input buffer %d changed", i)
+		}
+		if !g.SlackIntact() {
+			return fmt.Sprintf("the bytes behind input buffer %d (its spare capacity) changed", i)
 		}
 	}
 	return ""
